@@ -54,7 +54,7 @@ def run_cmd(cmd, **kw):
 
 # ---------------------------------------------------------------- builds
 def common_headers():
-    return sorted(glob.glob(os.path.join(SRC, "common", "*.hpp")))
+    return sorted(glob.glob(os.path.join(SRC, "common", "*.hpp")) + glob.glob(os.path.join(SRC, "common", "*.h")))
 
 
 def repo_headers():
@@ -72,7 +72,9 @@ def harness_object(srcfile, variant, defines=()):
     if os.path.exists(out):
         return out
     tmp = out + ".%d.tmp" % os.getpid()
-    cmd = [CXX, "-std=gnu++17", "-Wall", "-Wno-unused-function", "-Wno-deprecated-declarations"] + cflags + \
+    front = [CC, "-std=gnu11", "-Wall"] if srcfile.endswith(".c") else \
+        [CXX, "-std=gnu++17", "-Wall", "-Wno-unused-function", "-Wno-deprecated-declarations"]
+    cmd = front + cflags + \
           ["-D" + d for d in defines] + ["-I", os.path.join(REPO, "include"), "-I", SRC, "-c", srcfile, "-o", tmp]
     run_cmd(cmd)
     os.replace(tmp, out)
